@@ -432,6 +432,11 @@ func (gb *gcpBalancer) unbindSubConn(boundKey string) {
 	gb.mu.Lock()
 	defer gb.mu.Unlock()
 	boundSC, ok := gb.affinityMap[boundKey]
+	if _, found := gb.scRefs[boundSC]; ok && !found {
+		// The bound SubConn already left the pool: only drop the stale binding.
+		delete(gb.affinityMap, boundKey)
+		return
+	}
 	if ok {
 		gb.scRefs[boundSC].affinityDecr()
 		delete(gb.affinityMap, boundKey)
